@@ -66,6 +66,7 @@ def check(case, ctx):
     lay_ = build.Lay([case["order"], case.get("order2", case["order"])])
     e = lay_([p[0] for p in xy], case["shape"])
     n = lay_([p[1] for p in xy], case["shape"])
+    e, n = blocks.pixel_array(lay, e), blocks.pixel_array(lay, n)
     coords = (e, n) + ((np.arange(e.size, dtype="float64").reshape(e.shape),) if case["extra"] else ())
     kw = blocks.verde_kwargs(lay)
     block_coords, labels = vd.block_split(tuple(build.present(c, case.get("container")) for c in coords), **kw)
@@ -112,7 +113,7 @@ def check(case, ctx):
     for p in pts:
         if 0 <= p[0] < lay["nb_e"] and 0 <= p[2] < lay["nb_n"] and 0 < p[1] < 1 and 0 < p[3] < 1:
             per_block[(p[0], p[2])] = per_block.get((p[0], p[2]), 0) + 1
-    ctx.label(lay["pres"], "ndim%d" % e.ndim, *case["kinds"])
+    ctx.label(lay["pres"], "ndim%d" % e.ndim, "dtype_%s" % (lay.get("pixel") or "float64"), *case["kinds"])
     if lay["nb_n"] == 1 or lay["nb_e"] == 1:
         ctx.label("single_row_or_column")
     multi = max(lay["nb_n"], lay["nb_e"]) >= 2
